@@ -124,6 +124,7 @@ def catalogue_specs(ctx, cases, n_target, base):
     # peel block: every loop>0 / on='enter' row of the table whose template replaces the match by one of its own parts,
     # on the program with several locations of different depth (finite loop: a fresh budget for every location)
     peel_prog = len(PROGRAMS) - 1
+    plain = c18_driver.plain_param_programs()
     peel = [c for c in cases if (c['t'].startswith('e_peel_') or c['t'] == 's_unwrap_b') and c['s']['loop'] > 0
             and c['s']['on'] == 'enter' and c['s']['cb'] and c['s']['count'] == 0 and c['s']['docstr']]
     peel.sort(key=lambda c: (c['p'], c['t'], json.dumps(c['s'], sort_keys=True)))
@@ -132,14 +133,35 @@ def catalogue_specs(ctx, cases, n_target, base):
             specs.append({'kind': 'cat', 'tid': base + len(specs) + 1, 'p': c['p'], 't': c['t'], 'cat': c['cat'],
                           'cfg': c['s'], 'progs': [peel_prog], 'variant': rng.randrange(layouts.N_VARIANTS) if rep else 0,
                           'lseed': rng.randrange(1 << 20), 'fst': False})
+    # focus block: slot classes whose interesting inputs are rare in the corpus get the program written for them, for
+    # nested on/off (rows of the table with on='enter', no loop / count / back): same-operator and mixed BoolOps into
+    # BoolOp templates (flattening, missing operand), generators into argument slots (parenthesisation of `yield`)
+    def prog_with(marker):
+        return next(i for i, p in enumerate(PROGRAMS) if marker in p)
+    focus = [(lambda c: c['p'] == 'boolop2' and (c['t'].startswith('e_bool_') or c['t'] in ('e_log', 'e_peel_a')),
+              prog_with('both = (p or q) and (r or s)')),
+             (lambda c: (c['p'], c['t']) in (('expr_stmt', 's_expr_print'), ('assign1', 's_assign_wrap'), ('ret', 's_ret_wrap'),
+                                             ('expr_stmt', 's_prepost'), ('if_', 's_try'), ('if_', 's_prepost')),
+              prog_with('def gen(n):'))]
+    plainrow = [c for c in cases if c['s']['loop'] == 0 and c['s']['on'] == 'enter' and c['s']['cb'] and c['s']['count'] == 0
+                and c['s']['docstr'] and not c['s']['back']]
+    plainrow.sort(key=lambda c: (c['p'], c['t'], c['s']['nested']))
+    for sel, prog in focus:
+        for c in plainrow:
+            if sel(c):
+                specs.append({'kind': 'cat', 'tid': base + len(specs) + 1, 'p': c['p'], 't': c['t'], 'cat': c['cat'],
+                              'cfg': c['s'], 'progs': [prog], 'variant': 0, 'lseed': rng.randrange(1 << 20), 'fst': False})
     n_target += len(specs)
     i = 0
     while len(specs) < n_target:
         pair = pairs[i % len(pairs)]
         i += 1
         c = rng.choice(by_pair[pair])
+        progs = rng.sample(range(len(PROGRAMS)), 8)
+        if c['cat'] == 'arguments':      # the parameter-list slot is modelled for plain lists: prefer such programs
+            progs = rng.sample(plain, min(2, len(plain))) + progs
         specs.append({'kind': 'cat', 'tid': base + len(specs) + 1, 'p': c['p'], 't': c['t'], 'cat': c['cat'],
-                      'cfg': c['s'], 'progs': rng.sample(range(len(PROGRAMS)), 8), 'variant': rng.randrange(layouts.N_VARIANTS),
+                      'cfg': c['s'], 'progs': progs, 'variant': rng.randrange(layouts.N_VARIANTS),
                       'lseed': rng.randrange(1 << 20), 'fst': rng.random() < 0.15})
     return specs
 
@@ -229,9 +251,13 @@ def run(ctx):
     ctx.rule = ('M: TemplateMC.tla - all abstract trees <= MaxNodes over 2 labels x 3 label-set patterns x all templates '
                 '<= MaxTmpl nodes with whole-match / single-node / slice / missing slots x nested x count x loop x on x '
                 'back: walk-driven algorithm = TemplateRel reference (static outermost / nested), TemplateRel functional, '
-                'identity, counts, every step locally TemplateRel. G1: a seeded sample of its terminal states replayed '
+                'identity, counts, every step locally TemplateRel; plus the family "peel" (TemplateMC_peel.cfg: 2-3 chains of different '
+                'depth under one root, peeling / relabelling / rebuilding templates, loop 2 and 3, up to 13 nodes). G1: a seeded sample of its terminal states replayed '
                 'into pfst. G2: TemplateCases.tla generates (pattern, template, settings); applied to 41 corpus programs '
-                'x 9 layouts. V: every subn() call validated by TLC against TemplateTrace.tla, one event per substitution. '
+                'x 9 layouts, with a block of peeling rules (X + 0 -> X, not X -> X, [[X]] -> X, f(1)(2) -> f, a.b -> a, if-unwrap) under '
+                'loop 2/3 on a program with locations of different depth. V: every subn() call validated by TLC against '
+                'TemplateTrace.tla, one event per substitution (incl. Loop.Complete: a location is re-substituted until its loop '
+                'budget is used up or it stops matching). '
                 'distinct = distinct (pattern, template, nested, count, loop, on, back, callbacks, static mode, outcome) '
                 'tuples with at least one substitution performed')
     ctx.assumptions += ['projection (harness/proj.py) trusted; match sets and captures are taken from pfst search/match '
@@ -239,10 +265,10 @@ def run(ctx):
                         'pure-AST reference (harness/c18_ref.py), which TLC cross-checks against Template.tla (RefAgree)',
                         'domain: slots receive captures of the class their position accepts (Template!SlotsFit), matches '
                         'inside f-strings and match patterns excluded, nested+loop divergence (documented hazard) excluded; '
-                        'function `arguments`, ExceptHandler / match_case / comprehension slot forms, string-interior '
+                        'function `arguments` beyond plain parameter lists, ExceptHandler / match_case / comprehension slot forms, string-interior '
                         'slots, __FSO_/__FSS_ overrides are not covered']
     quick = ctx.quick
-    n_cat, n_abs = (900, 250) if quick else (16000, 4000)
+    n_cat, n_abs = (750, 220) if quick else (15000, 4000)
 
     os.environ['OUT_FILE'] = os.path.join(__import__('harness.tlc', fromlist=['x']).scratch(), 'c18cases.json')
     ctx.model('TemplateCases', 'TemplateCases', workers=1, coverage=False, heap='1g')
@@ -255,28 +281,33 @@ def run(ctx):
     ctx.extra['case_table'] = {'rows': len(cases), 'pattern_template_pairs': len({(c['p'], c['t']) for c in cases})}
 
     mc = {}
+    acts = ('Pick', 'Descend', 'SkipNode', 'Subst', 'LoopSubst', 'Stop')
 
-    def model():
+    def model(key, cfg, workers, heap):
         try:
-            mc['r'] = _retry(lambda: ctx.model('TemplateMC', 'TemplateMC' if quick else 'TemplateMC_thorough',
-                                               required=('Pick', 'Descend', 'SkipNode', 'Subst', 'LoopSubst', 'Stop'),
-                                               workers=8 if quick else 12, heap='3g' if quick else '6g', timeout=3000))
+            mc[key] = _retry(lambda: ctx.model('TemplateMC', cfg, required=acts, workers=workers, heap=heap, timeout=3000))
         except BaseException as e:  # noqa: BLE001
             mc['e'] = e
-    th = threading.Thread(target=model)
-    th.start()
+    ths = [threading.Thread(target=model, args=('all', 'TemplateMC' if quick else 'TemplateMC_thorough',
+                                                8 if quick else 12, '3g' if quick else '6g')),
+           threading.Thread(target=model, args=('peel', 'TemplateMC_peel', 4, '2g'))]
+    for th in ths:
+        th.start()
 
     results = run_shards(catalogue_specs(ctx, cases, n_cat, 0), nproc=6 if quick else 14)
-    th.join()
+    for th in ths:
+        th.join()
     if 'e' in mc:
         raise mc['e']
-    rows = parse_rows(mc['r']['out'])
-    if len(rows) < 1000:
-        raise common.Machinery(f'only {len(rows)} rows emitted by TemplateMC')
-    ctx.extra['model_rows'] = len(rows)
     rng = random.Random(ctx.seed * 104729 + 5)
-    live = [r for r in rows if r['total'] > 0]
-    sample = rng.sample(live, min(n_abs, len(live)))
+    sample = []
+    for key, n, least in (('all', n_abs, 1000), ('peel', 100 if quick else 2500, 1000)):
+        rows = parse_rows(mc[key]['out'])
+        if len(rows) < least:
+            raise common.Machinery(f'only {len(rows)} rows emitted by TemplateMC ({key})')
+        ctx.extra['model_rows_' + key] = len(rows)
+        live = [r for r in rows if r['total'] > 0]
+        sample += rng.sample(live, min(n, len(live)))
     results += run_shards([{'kind': 'abs', 'tid': 10_000_000 + i, 'row': r} for i, r in enumerate(sample)],
                           nproc=4 if quick else 14)
     for r in results:
@@ -284,7 +315,8 @@ def run(ctx):
             raise common.Machinery('driver failed: ' + r['error'])
     collect(ctx, validate(ctx, results))
     ctx.require_clauses(['TemplateRel', 'Event.TemplateRel', 'Sync', 'Identity', 'Counts.total', 'Counts.static',
-                         'CarriedOut', 'Event.OutsideTokens', 'Event.OutsideLines', 'OutsideTokens', 'Model.Result'])
+                         'CarriedOut', 'Event.OutsideTokens', 'Event.OutsideLines', 'OutsideTokens', 'Model.Result',
+                         'Loop.Complete', 'Loop.Bounded'])
     if ctx.extra.get('substitutions', 0) < (1000 if quick else 15000):
         raise common.Machinery(f'vacuity guard: only {ctx.extra.get("substitutions", 0)} substitutions performed')
 
